@@ -253,13 +253,30 @@ func (s *settings) GetBySwampName(swampName name.Name) setting.Setting {
 	s.mu.RLock()
 	defer s.mu.RUnlock()
 
-	if len(s.patterns) > 0 {
-		for _, pi := range s.patterns {
-			// compare if the pattern is math with the swamp name
-			if swampName.ComparePattern(pi.GetPattern()) {
-				return pi
-			}
+	// Several registered patterns may match the same swamp (exact, swamp wildcard, realm
+	// wildcard). The most specific one wins, independently of the (random) map iteration
+	// order: an exact realm outranks an exact swamp part, so for a given name every matching
+	// pattern has a different score and the winner is unique.
+	var best setting.Setting
+	bestScore := -1
+	for _, pi := range s.patterns {
+		p := pi.GetPattern()
+		if !swampName.ComparePattern(p) {
+			continue
 		}
+		score := 0
+		if p.GetRealmName() != "*" {
+			score += 2
+		}
+		if p.GetSwampName() != "*" {
+			score++
+		}
+		if score > bestScore {
+			best, bestScore = pi, score
+		}
+	}
+	if best != nil {
+		return best
 	}
 
 	// ha nem találunk olyan beállítást, ami a megadott mintához tartozik, akkor visszaadjuk az alapértelmezett beállítást
